@@ -33,6 +33,16 @@ GRAMMARS = {
                       declare=['A', 'B', 'C']), ['A', 'B', 'C']),
 }
 
+# accepts() exactness on automata with merged (LALR) lookaheads: a rejected trial feed may reduce before it fails
+X_, Y_, D_, E_, G_, H_ = T('X'), T('Y'), T('D'), T('E'), T('G'), T('H')
+ACC_GRAMMARS = {
+    'merged': (Grammar([Rule('start', [[X_, N('a'), D_], [X_, N('b'), E_], [Y_, N('a'), G_], [Y_, N('b'), H_]]), Rule('a', [[C]]), Rule('b', [[C]])],
+                       declare=['X', 'Y', 'C', 'D', 'E', 'G', 'H']), ['X', 'Y', 'C', 'D', 'E', 'G', 'H']),
+    'nullsuffix': (Grammar([Rule('start', [[A, N('o'), N('p')]]), Rule('o', [[B], []]), Rule('p', [[C], []])], declare=['A', 'B', 'C']), ['A', 'B', 'C']),
+    'lalr_not_slr': (Grammar([Rule('start', [[N('l'), T('EQ'), N('r')], [N('r')]]), Rule('l', [[T('STAR'), N('r')], [T('ID')]]), Rule('r', [[N('l')]])],
+                             declare=['EQ', 'STAR', 'ID']), ['EQ', 'STAR', 'ID']),
+}
+
 TEXT_GRAMMAR = '''
 start: _list
 _list: _list item | item
@@ -53,6 +63,14 @@ if P and P.get('kind') == 'forks':
     FK = P.get('fork_kind')
     ORD = P.get('order')
     NFK = 4
+
+if P and P.get('kind') == 'acc':
+    from lark import Lark, Token, Tree
+    from lark.exceptions import UnexpectedToken, UnexpectedInput
+    G, NAMES = ACC_GRAMMARS[P['g']]
+    K = len(NAMES)
+    LARK = Lark(G.render(), parser='lalr', lexer=hs.make_list_lexer(NAMES))
+    LA = P['L']
 
 if P and P.get('kind') == 'resume':
     from lark import Lark, Token, Tree
@@ -191,6 +209,39 @@ def _forks_body(rec, p, kind, c1, c2, order, acc_at):
             if acc_seen[0] != want_acc:
                 return hs.fail(rec, 'accepts() differs from the set of tokens whose feeding succeeds', seq=acc_seen[1], got=sorted(acc_seen[0]), want=sorted(want_acc))
     return True
+
+
+def _acc_body(rec, ix):
+    ip = LARK.parse_interactive()
+    seq = []
+    seen = [(set(ip.accepts()), [])]
+    k = 0
+    try:
+        while k < len(ix):
+            name = NAMES[hs.sel(ix[k], K)]
+            seq.append(name)
+            ip.feed_token(_tok(name))
+            seen.append((set(ip.accepts()), list(seq)))
+            k += 1
+    except UnexpectedToken:
+        pass
+    with hs.untraced():
+        rec['key'] = list(seq)
+        rec['nontrivial'] = len(seen) > 1
+        rec['count'] = {'states_checked': len(seen)}
+        for got, prefix in seen:
+            want = _fresh_accepts(prefix)
+            if got != want:
+                return hs.fail(rec, 'accepts() differs from the set of tokens whose feeding succeeds', prefix=prefix, got=sorted(got), want=sorted(want))
+    return True
+
+
+def acc(ix: List[int]) -> bool:
+    """
+    pre: len(ix) <= LA
+    post: _
+    """
+    return hs.run_path(_acc_body, (ix,), corner=lambda ix: len(ix) == LA and hs.sel(ix[LA - 1], K) == K - 1)
 
 
 def forks(p: List[int], kind: int, c1: List[int], c2: List[int], order: int, acc_at: int) -> bool:
@@ -332,6 +383,12 @@ def plan(tier, seed):
                 slices.append({'id': 'forks:%s:kind%d:order%d:p%d:c%d' % (g, fk, od, LP, LC), 'func': 'forks',
                                'params': {'kind': 'forks', 'g': g, 'LP': LP, 'LC': LC, 'fork_kind': fk, 'order': od}, 'timeout': 300 if quick else 3000,
                                'twin': fk == 0 and od == 2, 'bound': {'prefix': LP, 'continuations': LC}})
+    for g in ACC_GRAMMARS:
+        # the order in which accepts() tries the terminals follows the parse table's dict order, which depends on the string hash
+        # seed: the slice is repeated under different PYTHONHASHSEED values (sampled, declared)
+        for rep in range(4 if g == 'merged' else 1):
+            slices.append({'id': 'acc:%s:L%d:hashseed%d' % (g, 4 if quick else 6, rep), 'func': 'acc', 'params': {'kind': 'acc', 'g': g, 'L': 4 if quick else 6},
+                           'hashseed': 1000 * rep + seed, 'timeout': 300 if quick else 1500, 'twin': rep == 0, 'bound': {'tokens': 4 if quick else 6}})
     NT = 3 if quick else 4
     for lexer in ('contextual', 'basic'):
         for rm in range(3):
